@@ -17,6 +17,8 @@ struct Case {
   int recw = 1;                    // width of one program record in ints
   std::vector<int> prog;           // program: records of recw ints (shrink by removing whole records)
   std::vector<std::uint8_t> tape;  // schedule tape (shrink by truncation / zeroing)
+  // alternative schedule form used for crash recovery in --dfs mode: bound followed by (value, arity) pairs
+  std::vector<int> dfs;
 
   std::size_t Records() const {
     return recw > 0 ? prog.size() / static_cast<std::size_t>(recw) : 0;
@@ -44,6 +46,13 @@ struct Case {
       os << ' ' << static_cast<int>(t);
     }
     os << "\n";
+    if (!dfs.empty()) {
+      os << "dfs";
+      for (int d : dfs) {
+        os << ' ' << d;
+      }
+      os << "\n";
+    }
     return os.str();
   }
 
@@ -79,6 +88,12 @@ struct Case {
         int v;
         while (ls >> v) {
           out.tape.push_back(static_cast<std::uint8_t>(v));
+        }
+      } else if (key == "dfs") {
+        out.dfs.clear();
+        int v;
+        while (ls >> v) {
+          out.dfs.push_back(v);
         }
       }  // unknown keys (comments, verdicts) are ignored
     }
